@@ -772,7 +772,7 @@ pub async fn run(sc: &HostedScenario, keep_log: bool) -> HostedRecord {
                 c.marks.push((exec.steps, "main idle".to_string()));
                 c.phase = 1;
                 drop(c);
-                exec.wake_all();
+                exec.wake_all_except(&[agent_node]);
             }
             1 => {
                 let mut c = ctrl.borrow_mut();
@@ -791,14 +791,14 @@ pub async fn run(sc: &HostedScenario, keep_log: bool) -> HostedRecord {
                     }
                 }
                 drop(c);
-                exec.wake_all();
+                exec.wake_all_except(&[agent_node]);
             }
             2 => {
                 let mut c = ctrl.borrow_mut();
                 c.phase = 3;
                 c.marks.push((exec.steps, "second ping".to_string()));
                 drop(c);
-                exec.wake_all();
+                exec.wake_all_except(&[agent_node]);
             }
             3 => {
                 let mut c = ctrl.borrow_mut();
@@ -810,7 +810,7 @@ pub async fn run(sc: &HostedScenario, keep_log: bool) -> HostedRecord {
                 if let Some(tx) = stop_tx.take() {
                     tx.trigger();
                 }
-                exec.wake_all();
+                exec.wake_all_except(&[agent_node]);
             }
             _ => {
                 if exec.is_done(agent_node) {
